@@ -108,9 +108,12 @@ class SmallBufferAllocator {
     uint32_t allocId = 0;
     auto& globals = getSmallBufferGlobals<kChunkSize>();
     auto& lock = globals.backingStoreLock;
+    DISPENSO_VERIF_POINT("BytesCas", &lock);
     while (!lock.compare_exchange_weak(allocId, 1, std::memory_order_acquire)) {
+      DISPENSO_VERIF_POINT("BytesCas", &lock);
     }
     size_t bytes = kMallocBytes * globals.backingStore.size();
+    DISPENSO_VERIF_POINT("BytesUnlock", &lock);
     lock.store(0, std::memory_order_release);
     return bytes;
   }
@@ -174,10 +177,12 @@ class SmallBufferAllocator {
     auto& lock = globals.backingStoreLock;
     auto& backingStore = globals.backingStore;
     while (true) {
+      DISPENSO_VERIF_POINT("GrabDeq", &lock);
       size_t grabbed = queue.try_dequeue_bulk(buffers, kIdealNumTLBuffers);
       if (grabbed) {
         return grabbed;
       }
+      DISPENSO_VERIF_POINT("GrabFaa", &lock);
       uint32_t allocId = lock.fetch_add(1, std::memory_order_acquire);
       if (allocId == 0) {
         char* buffer = reinterpret_cast<char*>(detail::alignedMalloc(kMallocBytes, kChunkSize));
@@ -188,21 +193,26 @@ class SmallBufferAllocator {
         for (size_t i = 0; i < kNumToPush; ++i, buffer += kChunkSize) {
           topush[i] = buffer;
         }
+        DISPENSO_VERIF_POINT("GrabEnq", &lock);
         queue.enqueue_bulk(topush, kNumToPush);
+        DISPENSO_VERIF_POINT("GrabUnlock", &lock);
         lock.store(0, std::memory_order_release);
         for (size_t i = 0; i < kIdealNumTLBuffers; ++i, buffer += kChunkSize) {
           buffers[i] = buffer;
         }
         return kIdealNumTLBuffers;
       } else {
+        DISPENSO_VERIF_POINT("GrabSpin", &lock);
         while (lock.load(std::memory_order_relaxed)) {
           std::this_thread::yield();
+          DISPENSO_VERIF_POINT("GrabSpin", &lock);
         }
       }
     }
   }
 
   static void recycleToCentralStore(char** buffers, size_t numToRecycle) {
+    DISPENSO_VERIF_POINT("RecycleEnq", buffers);
     getThreadQueuingData().enqueue_bulk(buffers, numToRecycle);
     // TODO(bbudge): consider whether we need to do any garbage collection and return memory to
     // the system.
